@@ -445,6 +445,60 @@ func runLoaded(t *tr.Trace, r *tr.Rand, root string) {
 		w.noteBodySecrets(b)
 		step("g2", "wildcard administrator's password, same length",
 			update{"PUT", shape{path: apiPrefix + "g2/.wildcard-user/.password", scope: "g2", kind: "pw"}, b, rootc}, g2w, g2w1)
+		// the SERVER configuration (config.json is edited by hand, the server
+		// re-reads it when its size or modification time changes): a server
+		// administrator whose password is replaced, or whose `admin`
+		// permission is withdrawn, is refused from then on; whatever the
+		// server remembers about earlier successful logins must not outlive
+		// the file that justified it
+		confStep := func(name, user string, edit func(u *userDef), oldc, newc cred) {
+			list := shape{path: apiPrefix + "g1/.users/", scope: "g1", kind: "none"}
+			w.do("GET", list, oldc, noBody) // valid now, and seen by the server
+			w.do("GET", list, oldc, noBody)
+			time.Sleep(12 * time.Millisecond)
+			file := filepath.Join(w.data, "config.json")
+			s0, m0 := fileStamp(file)
+			for i := range w.def.conf {
+				if w.def.conf[i].name == user {
+					edit(&w.def.conf[i])
+				}
+			}
+			w.writeConfig()
+			w.cur = nil // the driver changed the disk itself: later requests are compared with THIS state
+			w.collectSecrets()
+			s1, m1 := fileStamp(file)
+			if s0 == s1 && m0.Equal(m1) {
+				t.Note("config-stamp-collision")
+				return
+			}
+			t.Note("config-rotated")
+			for _, u := range w.def.conf {
+				if u.name == user {
+					t.Op("-", "confedit", u.name, u.pw.String(), u.perms)
+				}
+			}
+			revoked := oldc
+			revoked.name = oldc.name + "-revoked(" + name + ")"
+			revoked.admin = never
+			revoked.kind = "revoked"
+			w.do("GET", list, revoked, noBody)
+			w.do("HEAD", shape{path: apiPrefix + "g1", scope: "g1", kind: "desc"}, revoked, noBody)
+			w.do("PUT", shape{path: apiPrefix + "g1/.users/intruder", scope: "g1", kind: "user"}, revoked, userBody(ctJSON, "role:admin", pwSpec{"none", ""}))
+			w.do("GET", list, newc, noBody)
+		}
+		rootb := findCred(all, "rootb")
+		root1 := basicCred("root-new1", "serveradmin", "root", "S3CR3T-root-NEW", always)
+		confStep("server admin, plain password replaced (same length)", "root",
+			func(u *userDef) { u.pw = pwSpec{"plain", "S3CR3T-root-NEW"} }, rootc, root1)
+		w.secrets["S3CR3T-root-NEW"] = true
+		rootb1 := basicCred("rootb-new1", "serveradmin", "rootb", "S3CR3T-rootb-NEW", always)
+		confStep("server admin, bcrypt password replaced", "rootb",
+			func(u *userDef) { u.pw = pwSpec{"bcrypt", "S3CR3T-rootb-NEW"} }, rootb, rootb1)
+		w.secrets["S3CR3T-rootb-NEW"] = true
+		rootNoAdmin := root1
+		rootNoAdmin.admin = never
+		confStep("server admin, permission withdrawn", "root",
+			func(u *userDef) { u.perms = "role:op" }, root1, rootNoAdmin)
 		_ = r
 		group.Delete("g1")
 		group.Delete("g2")
